@@ -55,7 +55,7 @@ def run(tier, rep):
     else:
         layers, phases, deadline = 'A,B2,C', 3, 1500
     res, d = dxlib.run_dx('plain', cfg, 'c01', layers, 'ref', phases=phases, deadline=deadline, extra=[] if tier == 'quick' else ['--c-cap', '3000000'])
-    known = [r for r in res if r.get('ref_available')]
+    known = [r for r in res if r.get('ref_available') or 'crashed' in r]  # (a crashed exploration is reported as a violation by aggregate)
     if len(known) < 61 and not dxlib.SKIPPED:
         raise SystemExit('HARNESS-ERROR: the reference model accepts only %d background names (61 expected)' % len(known))
     aggregate(rep, res, True, ('ref',), 'genbbsub',
